@@ -305,7 +305,7 @@ ORACLES = {"roundtrip": oracle_roundtrip, "spec": oracle_spec, "flushed": oracle
 
 
 # ------------------------------------------------------------------ generators of cases
-def gen_generic_case(ctx, G, cls: str | None = None, fits: bool = True, entry: str | None = None, nd: bool | None = None) -> dict:
+def gen_generic_case(ctx, G, cls: str | None = None, fits: bool = True, entry: str | None = None, nd: bool | None = None, churn: bool = False) -> dict:
     import gen as genmod
 
     r = ctx.rng
@@ -321,6 +321,21 @@ def gen_generic_case(ctx, G, cls: str | None = None, fits: bool = True, entry: s
         cfg.maxd = 0
     elif cfg.maxd == 0:
         cfg.maxd = max(1, need[2])
+    if churn:
+        # prefix / name churn: many namespaces sharing few local names, tables at their smallest that
+        # still fit every statement, long inputs -- slots are re-assigned all the time (by explicit and
+        # by sequential ids) while the same (slot, slot) pairs keep coming back with other contents
+        g = genmod.Gen(r, nprefix=r.randint(4, 7), nname=r.randint(2, 3), ndt=r.randint(1, 2))
+        n = r.choice([13, 30, 60])
+        stmts = g.statements(n, ar, typed=not maxd_zero, quoted=r.random() < 0.3, prepeat=r.choice([0.1, 0.3]))
+        need = genmod.table_need(stmts)
+        cfg = genmod.random_cfg(r, cls, need)
+        cfg.maxn = max(8, need[0])
+        cfg.maxp = max(1, need[1]) + r.choice([0, 0, 1])
+        cfg.maxd = 0 if maxd_zero else max(1, need[2])
+        if r.random() < 0.3:
+            # name churn instead: no prefix table, many whole-IRI names through a small name table
+            cfg.maxp = 0
     cfg.delim = r.random() < 0.7
     if not cfg.delim:
         cfg.logical = {"T": 1, "Q": 2, "G": 2}[cls]
